@@ -171,7 +171,7 @@ def build_real(config, comps, out_len, strategy, max_evaluations, tol=0.0, obser
     return r
 
 
-def build(config, history, comps, out_len, strategy="es", tol=0.5, perform_kwargs=None, recalc_every=None, resume=None):
+def build(config, history, comps, out_len, strategy="es", tol=0.5, perform_kwargs=None, recalc_every=None, resume=None, time_stop=None):
     """resume = (k, how): the run is stopped after k scripted steps and continued for the remaining ones, how = "continue"
     (continue_adaptive_refinement) or "container" (performSpatiallyAdaptiv(refinement_container=...))"""
     from sparseSpACE.spatiallyAdaptiveExtendSplit import SpatiallyAdaptiveExtendScheme
@@ -202,8 +202,12 @@ def build(config, history, comps, out_len, strategy="es", tol=0.5, perform_kwarg
         sa.refinements_for_recalculate = recalc_every
     orig_eval, orig_refine = sa.evaluate_operation, sa.refine
 
+    r.vclock = None
+
     def eval_wrapper():
         orig_eval()
+        if r.vclock is not None:
+            r.vclock.advance(1.0)        # one unit of virtual time per completed evaluation
         r.steps.append((np.array(op.get_result(), dtype=float).copy(), sa.get_total_num_points()))
         for i in range(sa.refinement.size()):
             sa.refinement.calc_error(i, sa.norm)
@@ -252,6 +256,16 @@ def build(config, history, comps, out_len, strategy="es", tol=0.5, perform_kwarg
         sa.compute_benefits_for_operations = cb_wrapper
         sa.do_refinement = do_wrapper
 
+    if time_stop is not None:
+        # the run is ended by its TIME budget after evaluation number time_stop (0-based; virtual clock, mc/clock.py)
+        from mc import clock
+        with clock.virtual_clock() as vt:
+            r.vclock = vt
+            r.result = sa.performSpatiallyAdaptiv(config["lmin"], config["lmax"], eo, tol=tol, print_output=False,
+                                                  max_time=time_stop + 0.5, **(perform_kwargs or {}))
+        r.vclock = None
+        r.steps_executed = eo.pointer
+        return r
     if resume is not None:
         eo.limit = min(resume[0], len(history))
     r.result = sa.performSpatiallyAdaptiv(config["lmin"], config["lmax"], eo, tol=tol, print_output=False,
